@@ -300,3 +300,53 @@ CONTRACTS.update({
         split=[{"assume": "sh[len(sh) - 1] == %r" % d} for d in "1234567"],
         properties=["C11"], battery="note_shorthand"),
 })
+
+
+# ------------------------------------------------------------------ C16 / C17
+import io as _io  # noqa: E402
+from math import log as _log  # noqa: E402
+from mingus.midi.midi_track import MidiTrack as _MidiTrack  # noqa: E402
+from mingus.midi import midi_file_in as _mfi  # noqa: E402
+
+
+def c16_log_assumption(v, b):
+    """the assumed contract A_log, checked at run time only"""
+    return int(_log(max(v, 1), b))
+
+
+def c17_tempo_roundtrip(bpm):
+    return 60000000 // (60000000 // bpm)
+
+
+CONTRACTS.update({
+    L + "c16_log_assumption": dict(
+        params={"v": "int", "b": "int"}, requires="1 <= v and v < 2 ** 28 and (b == 2 or b == 128)", returns="int",
+        ensures=[("floor-of-the-logarithm", "b ** result <= v and v < b ** (result + 1)")],
+        bounded_only="math.log is a C library call: the contract A_log is validated, not proved (boundary "
+                     "neighbourhoods of every power in quick tier, dense sweep in thorough tier)",
+        properties=["C16", "C17"], battery="log_domain"),
+    L + "c17_tempo_roundtrip": dict(
+        params={"bpm": "int"}, requires="4 <= bpm and bpm <= 1000", returns="int",
+        ensures=[("tempo-read-back-equals-tempo-written", "result == bpm")],
+        split=[{"bind": {"bpm": b}} for b in range(4, 1001)], split_is_domain=True,
+        notes="complete finite split over bpm 4..1000 (the statement's own range); integer arithmetic as coded in "
+              "set_tempo_event / MIDI_to_Composition",
+        properties=["C17"], battery="bpms"),
+})
+
+
+def c17_vlq_reader_inverts_writer(b, n):
+    """pure arithmetic lemma tying the two contracts together: what the encoder's postcondition (is_vlq) says about
+    the bytes is exactly what the reader's precondition needs, and the reader's value formula gives n back"""
+    return None
+
+
+_RD = []
+for _L in (1, 2, 3, 4):
+    _cont = " and ".join(["b[%d] >= 128" % i for i in range(_L - 1)] + ["b[%d] < 128" % (_L - 1)])
+    _val = " + ".join("(b[%d] %% 128) * %d" % (i, 128 ** (_L - 1 - i)) for i in range(_L))
+    _RD.append("(len(b) == %d and %s and %s == n)" % (_L, _cont, _val))
+CONTRACTS[L + "c17_vlq_reader_inverts_writer"] = dict(
+    params={"b": "bytes", "n": "int"}, requires="0 <= n and n < 2 ** 28 and is_vlq(b, n)", returns="None",
+    ensures=[("reader-precondition-and-value", " or ".join(_RD))],
+    properties=["C17", "C16"], battery=None)
